@@ -354,7 +354,7 @@ class Output(InputOutput):
     @property
     def claim_name(self) -> str:
         if self.script.is_claim_involved:
-            return self.script.values['claim_name'].decode()
+            return self.script.values['claim_name'].decode(errors='replace')
         raise ValueError('No claim_name associated.')
 
     @property
